@@ -27,6 +27,7 @@ RULE = ('Hypothesis generates a parameter table (2..10 models named in styles li
         'on that input. Non-trivial = some source with >= 2 selected fits, a non-identity row permutation and a fit order '
         'that differs from the name order; distinct = distinct canonical JSON.')
 RULE += (' ' + 'Also varied: right-justified model names in the parameter file, parameters.fits.gz, float32 columns, explicit parameters= lists, the table rewritten in the same directory between two passes.')
+RULE += (' ' + 'MODEL_NAME column at any position; the second pass in the same directory also revises the values.')
 ASSUMPTIONS = [
     'printed precision: %10.3f -> 5.1e-4 absolute, %10.3e / %11.3e -> 5.1e-4 relative',
     'columns are identified by the header names the functions print, not by position',
